@@ -93,7 +93,7 @@ m={
    "guard": "cargo feature verif-hooks",
    "enable": "cargo build --features verif-hooks (the harness depends on ska with features=[\"verif-hooks\"]; the CLI is built with --features verif-hooks)",
    "baseline_off_cmd": "cd /repo && cargo test --workspace --no-fail-fast --offline",
-   "source_commits": ["9f894d6"],
+   "source_commits": ["15e21bd"],
    "add_only": True
  },
  "engines": [
